@@ -65,4 +65,30 @@ CHECKS = [
        "invisible); sources are static within a run; memory addresses and the sandbox directory name are blanked.",
        "deterministic simulation: virtual-time asyncio loop with seeded loader/executor/drop latency; refinement of the async API against the sync API",
        "DESIGN.md section 4, C01"),
+    _c("C17",
+       "Seeded search over histories x schedules x clock: every history runs in a fork of a worker that never "
+       "renders anything, and EVERY render in it (sync, concurrent render_async with suspensions, implicit "
+       "environment) is compared with the outcome of the same (recipe, sources, data, simulated clock value) in a "
+       "pristine fork - a fresh process with no history - so module-level memoisation, state kept on nodes, "
+       "templates or environments, and leakage from aborted or cancelled renders all show as a difference; deep "
+       "type-tagged fingerprints check that data, parsed templates and environments are unchanged by a render. "
+       "Evidence over sampled histories, not proof.",
+       "The pristine state is 'fresh interpreter after import liquid'; exceptions compare by class; sources are static "
+       "(reloads are carved out by the statement); interleaving at await granularity only; reference forks are "
+       "serialised system-wide in this sandbox (~70/s), which bounds the number of histories per minute.",
+       "deterministic simulation: history machine on a virtual-time loop with simulated wall clock, cancellation and failing drops; oracle = pristine-fork reference process + deep fingerprints",
+       "DESIGN.md section 4, C17"),
+    _c("C11",
+       "Seeded search over histories of a process: environments with generated delimiter sets (lengths 1-4 over "
+       "punctuation, letters and regex metacharacters, disjoint from the template content, pairwise non-colliding) - "
+       "many sharing delimiters and mode but differing in tags, filters, flags and later mutations - are created, "
+       "used, mutated, dropped and flooded past the 128-entry memo caches in interleaved order; every parse/render "
+       "runs in a fork of a worker that never parsed anything and is compared (a) with the outcome in a pristine "
+       "fork where no other environment ever existed and (b) with the default-delimiter rewriting of the same tree "
+       "in an equally configured environment. Evidence over sampled histories, not proof.",
+       "No clock, I/O or scheduler is involved; the explored dimensions are order, liveness of configurations and memo "
+       "roll-over. Raw blocks hold plain text; the liquid tag's line-comment marker follows comment_start_string as "
+       "documented. Reference forks are serialised system-wide in this sandbox (~35-70/s).",
+       "deterministic simulation (history machine, no fault kinds apply): seeded operation histories over live configurations with a pristine-fork reference process as oracle",
+       "DESIGN.md section 4, C11"),
 ]
